@@ -35,6 +35,7 @@ OBLIGATIONS = [
     "VgiVerif.C21.C21_negotiation",
     "VgiVerif.C21.C21_hint_static",
     "VgiVerif.C21.C21_hint_iff",
+    "VgiVerif.C21.C21_hint_names",
     "VgiVerif.C21.C21_declarations",
     "VgiVerif.C21.C21_missing",
     "VgiVerif.C21.C21_missing_only_if",
@@ -43,6 +44,7 @@ OBLIGATIONS = [
     "VgiVerif.C21.C21_gate_first",
     "VgiVerif.C21.C21_outage",
     "VgiVerif.C21.C21_client",
+    "VgiVerif.C21.C21_client_total_iff",
 ]
 TRUSTED = [
     "CPython json.loads / bytes.decode(errors='replace') / str() of a JSON value are the model's environment "
@@ -1206,8 +1208,8 @@ def run_compositions(ctx: Any, L: Any) -> None:
             flush_requests(ctx, app)
     # ---- random compositions ----------------------------------------------------------------------
     maxd = 7 if thorough else 4
-    n_trees = ctx.budget(160, 3000)
-    per = ctx.budget(10, 20)
+    n_trees = ctx.budget(160, 9000)
+    per = ctx.budget(10, 24)
     for ti in range(n_trees):
         d = 1 + (ti % maxd)
         tree = gen_tree(rng, d, True, [0], builtins=rng.random() < 0.4)
@@ -1222,7 +1224,7 @@ def run_bodies(ctx: Any) -> None:
     rng = ctx.rng
     for tag, segs in body_corpus():
         run_body(ctx, tag, segs)
-    for _ in range(ctx.budget(1500, 25000)):
+    for _ in range(ctx.budget(1500, 60000)):
         tag, segs = gen_body(rng)
         run_body(ctx, tag, segs)
     flush_bodies(ctx)
